@@ -55,6 +55,17 @@ def gen_attention(rng):
   return {'test': 'attention', 'seed': rng.randint(0, 10 ** 6), 'batch': B, 'Tq': Tq, 'Tk': Tk, 'heads': H, 'dim': rng.randint(1, 3), 'bias': rng.random() < 0.4, 'mask': mask}
 
 
+def gen_masks(rng):
+  nq, nk = rng.randint(1, 5), rng.randint(1, 5)
+  big = rng.random() < 0.3           # values a half-precision float cannot represent exactly
+  val = (lambda: rng.choice([0, 1, 2, 3, 257, 258, 259, 2049, 2050, 2051])) if big else (lambda: rng.randint(0, 3))
+  n = rng.choice([1, 2, 3, 5, 8]) if not big else rng.choice([260, 264])
+  r, cdim = rng.randint(1, 3), rng.randint(1, 4)
+  parts = [[[rng.random() < 0.6 for _ in range(cdim)] for _ in range(r)] for _ in range(rng.randint(1, 3))]
+  return {'test': 'masks', 'q': [val() for _ in range(nq)], 'k': [val() for _ in range(nk)], 'fn': rng.choice(['mul', 'eq', 'ge']), 'dtype': rng.choice(['f32', 'bf16', 'f16', 'bool']),
+          'n': n, 'offset': rng.choice([0, 0, 7]), 'parts': parts, 'none': sorted(rng.sample(range(len(parts)), rng.randint(0, len(parts))))}
+
+
 def gen_decode(rng):
   return {'test': 'decode', 'seed': rng.randint(0, 10 ** 6), 'batch': rng.randint(1, 2), 'T': rng.randint(1, 6), 'heads': rng.randint(1, 3), 'features': rng.randint(1, 4), 'dim': rng.randint(1, 3)}
 
@@ -80,7 +91,7 @@ def run(chk):
   rng = chk.rng
   thorough = chk.tier == 'thorough'
   chk.proofs(PROOF_FILES)
-  gens = [gen_int_rnn, gen_int_rnn, gen_real_rnn, gen_attention, gen_attention, gen_decode]
+  gens = [gen_int_rnn, gen_int_rnn, gen_real_rnn, gen_attention, gen_attention, gen_decode, gen_masks]
   cases = [gens[i % len(gens)](rng) for i in range(2400 if thorough else 300)]
   W = 14
   results = common.run_impl_parallel('impl_c13.py', [{'cases': cases[i::W]} for i in range(W)], workers=W, timeout=3000)
@@ -128,6 +139,26 @@ def run(chk):
         chk.violation('oracle', 'inputs at padded positions (>= seq_lengths) influence a valid output or the returned carry', {'case': c})
       if 'dev_nnx_vs_linen' in r and ('err' in r['dev_nnx_vs_linen'] or not r['dev_nnx_vs_linen']['ok'] <= TOL):
         chk.violation('oracle', 'nnx.RNN(nnx.LSTMCell) with the Linen parameters differs from Linen', {'case': c, 'observed': r['dev_nnx_vs_linen']})
+    elif t == 'masks':
+      cb = lambda m: clist([clist([cbool(bool(v)) for v in row]) for row in m])
+      fterm = {'mul': '(fun a b => negb (Z.eqb (a * b) 0))', 'eq': 'Z.eqb', 'ge': '(fun a b => Z.leb b a)'}[c['fn']]
+      cz = lambda xs: clist([cZ(v) for v in xs])
+      bb = 'list_beq (list_beq Bool.eqb)'
+      for api in ('linen', 'nnx'):
+        g = r[api]
+        if g['mask_shape'] != [1, len(c['q']), len(c['k'])] or g['causal_shape'] != [1, c['n'], c['n']]:
+          chk.violation('oracle', '%s mask helper returns another shape than [1, len_q, len_kv]' % api, {'case': c, 'observed': g})
+          continue
+        row = ['%s (attn_mask %s %s %s) %s' % (bb, fterm, cz(c['q']), cz(c['k']), cb(g['mask']))]
+        if c['n'] <= 8:
+          row.append('%s (causal_mask %s) %s' % (bb, cnat(c['n']), cb(g['causal'])))
+        else:
+          import numpy as _np
+          if not _np.array_equal(_np.array(g['causal']), _np.tril(_np.ones((c['n'], c['n']), dtype=bool))):
+            chk.violation('oracle', '%s make_causal_mask(dtype=%s) of length %d is not lower triangular (a position sees a later one)' % (api, c['dtype'], c['n']), {'case': {k: v for k, v in c.items() if k != 'parts'}})
+        parts = clist([copt(None if i in c['none'] else cb(p)) for i, p in enumerate(c['parts'])])
+        row.append('option_beq (%s) (combine_masks %s) %s' % (bb, parts, copt(None if g['combined'] is None else cb(g['combined']))))
+        rows.append(((t + ':' + api, c, o), '(' + ' && '.join(row) + ')'))
     elif t == 'attention':
       if not r['dev_weights'] <= TOL or not r['dev_output'] <= 1e-8:
         chk.violation('oracle', 'attention weights / outputs over the allowed positions are not the softmax of scaled dot products plus bias', {'case': c, 'observed': r})
